@@ -12,8 +12,23 @@
          6 flavor_of [lg_k; c]      -> [determine_flavor code]      (u32 arithmetic as compiled)
          7 offset_of [lg_k; c]      -> [determine_correct_offset]
          8 estimate                 -> [bits of estimate()]  (HIP only: merge_flag = false)
-   summary = [C; offset; fic; flavor; kxp bits; hip bits] *)
-From DS Require Import Base.Prelude Base.FloatBits Model.Cpc.
+   summary = [C; offset; fic; flavor; kxp bits; hip bits]
+
+   C06 (CpcUnion) works on numbered sketch slots and union slots:
+        10 sk_new    [slot; lg_k]          -> []
+        11 sk_rc     [slot; rc]            -> [C; offset; fic; flavor]
+        12 sk_item   [slot; item; h1; h2]  -> [C; offset; fic; flavor]
+        13 sk_dump   [slot]                -> [lg_k; C; offset; fic; flavor; merge; |win|; win...; |tab|; sorted tab...]
+        14 sk_validate [slot]              -> [0|1]
+        15 sk_matrix [slot]                -> the K rows
+        16 sk_roundtrip [slot]             -> []   crate: slot := deserialize(serialize(slot)); model: unchanged (C11)
+        20 un_new    [uslot; lg_k]         -> []
+        21 un_update [uslot; slot]         -> [lg_k; num_coupons; kind]      kind 0 accumulator, 1 bit matrix
+        22 un_state  [uslot]               -> [lg_k; kind] ++ (kind 0: sk_dump of the accumulator | kind 1: the K rows)
+        23 un_result [uslot; slot]         -> sk_dump of to_sketch(), which is stored in [slot]
+   kxp / HIP are not observed on this path: the accumulator's float registers depend on the order in which
+   the source's hash-table slots are walked, and are dead once merge_flag is set. *)
+From DS Require Import Base.Prelude Base.FloatBits Model.Cpc Model.CpcUnion.
 From Coq Require Import Floats FSets.FMapPositive.
 Open Scope Z_scope.
 
@@ -35,37 +50,94 @@ Definition dump (s : cpc) : list Z :=
   ++ Z.of_nat (length (c_win s)) :: map Nz (c_win s)
   ++ Z.of_nat (length tab) :: map Nz tab.
 
-Definition step (cfg : list Z) (st : option cpc) (o : zop) : option cpc * list Z :=
+(* float-free dump used on the union path *)
+Definition dumpnf (s : cpc) : list Z :=
+  let tab := match c_table s with Some t => sortN t | None => [] end in
+  [Nz (c_lgk s); Nz (c_num s); Nz (c_off s); Nz (c_fic s); Nz (cpc_flavor s); zbool (c_merge s)]
+  ++ Z.of_nat (length (c_win s)) :: map Nz (c_win s)
+  ++ Z.of_nat (length tab) :: map Nz tab.
+Definition summarynf (s : cpc) : list Z := [Nz (c_num s); Nz (c_off s); Nz (c_fic s); Nz (cpc_flavor s)].
+
+Record cstate := mkCS { cs_cur : option cpc; cs_sk : list (Z * cpc); cs_un : list (Z * cpcu) }.
+
+Fixpoint lookup {A} (k : Z) (l : list (Z * A)) : option A :=
+  match l with
+  | [] => None
+  | (k', v) :: r => if k =? k' then Some v else lookup k r
+  end.
+Definition store {A} (k : Z) (v : A) (l : list (Z * A)) : list (Z * A) :=
+  (k, v) :: filter (fun kv => negb (fst kv =? k)) l.
+
+Definition set_cur (st : cstate) (c : option cpc) : cstate := mkCS c (cs_sk st) (cs_un st).
+Definition set_sk (st : cstate) (k : Z) (s : cpc) : cstate := mkCS (cs_cur st) (store k s (cs_sk st)) (cs_un st).
+Definition set_un (st : cstate) (k : Z) (u : cpcu) : cstate := mkCS (cs_cur st) (cs_sk st) (store k u (cs_un st)).
+
+Definition ustate_obs (u : cpcu) : list Z :=
+  match u_st u with
+  | UAcc s => [Nz (u_lgk u); 0] ++ dumpnf s
+  | UMat m => [Nz (u_lgk u); 1] ++ map Nz m
+  end.
+Definition ukind (u : cpcu) : Z := match u_st u with UAcc _ => 0 | UMat _ => 1 end.
+
+Definition step (cfg : list Z) (st : cstate) (o : zop) : cstate * list Z :=
   let '(code, a) := o in
+  let a0 := nth 0 a 0 in let a1 := nth 1 a 0 in
   match code with
-  | 0 => match cpc_new (zN (nth 0 cfg 0)) with Ok s => (Some s, []) | _ => (None, PANIC) end
-  | 6 => (st, [Nz (determine_flavor_u32 (zN (nth 0 a 0)) (zN (nth 1 a 0)))])
-  | 7 => (st, [Nz (determine_correct_offset (zN (nth 0 a 0)) (zN (nth 1 a 0)))])
+  | 0 => match cpc_new (zN (nth 0 cfg 0)) with Ok s => (set_cur st (Some s), []) | _ => (set_cur st None, PANIC) end
+  | 6 => (st, [Nz (determine_flavor_u32 (zN a0) (zN a1))])
+  | 7 => (st, [Nz (determine_correct_offset (zN a0) (zN a1))])
+  | 10 => match cpc_new (zN a1) with Ok s => (set_sk st a0 s, []) | _ => (st, PANIC) end
+  | 11 => match lookup a0 (cs_sk st) with
+          | Some s => match row_col_update s (zN a1) with Ok s' => (set_sk st a0 s', summarynf s') | _ => (st, PANIC) end
+          | None => (st, PANIC) end
+  | 12 => match lookup a0 (cs_sk st) with
+          | Some s => match cpc_update s (zN (nth 2 a 0)) (zN (nth 3 a 0)) with
+                      | Ok s' => (set_sk st a0 s', summarynf s') | _ => (st, PANIC) end
+          | None => (st, PANIC) end
+  | 13 => match lookup a0 (cs_sk st) with Some s => (st, dumpnf s) | None => (st, PANIC) end
+  | 14 => match lookup a0 (cs_sk st) with
+          | Some s => match cpc_validate s with Ok b => (st, [zbool b]) | _ => (st, PANIC) end
+          | None => (st, PANIC) end
+  | 15 => match lookup a0 (cs_sk st) with
+          | Some s => match build_bit_matrix s with Ok m => (st, map Nz m) | _ => (st, PANIC) end
+          | None => (st, PANIC) end
+  | 16 => match lookup a0 (cs_sk st) with Some _ => (st, []) | None => (st, PANIC) end
+  | 20 => match union_new (zN a1) with Ok u => (set_un st a0 u, []) | _ => (st, PANIC) end
+  | 21 => match lookup a0 (cs_un st), lookup a1 (cs_sk st) with
+          | Some u, Some s =>
+              match union_update u s with
+              | Ok u' => (set_un st a0 u', [Nz (u_lgk u'); Nz (union_num_coupons u'); ukind u'])
+              | _ => (st, PANIC) end
+          | _, _ => (st, PANIC) end
+  | 22 => match lookup a0 (cs_un st) with Some u => (st, ustate_obs u) | None => (st, PANIC) end
+  | 23 => match lookup a0 (cs_un st) with
+          | Some u => match union_to_sketch u with Ok s => (set_sk st a1 s, dumpnf s) | _ => (st, PANIC) end
+          | None => (st, PANIC) end
   | _ =>
-    match st with
+    match cs_cur st with
     | None => (st, PANIC)
     | Some s =>
       match code with
       | 1 => match cpc_update s (zN (nth 1 a 0)) (zN (nth 2 a 0)) with
-             | Ok s' => (Some s', summary s') | _ => (None, PANIC) end
+             | Ok s' => (set_cur st (Some s'), summary s') | _ => (set_cur st None, PANIC) end
       | 2 => match row_col_update s (zN (nth 0 a 0)) with
-             | Ok s' => (Some s', summary s') | _ => (None, PANIC) end
+             | Ok s' => (set_cur st (Some s'), summary s') | _ => (set_cur st None, PANIC) end
       | 3 => (st, dump s)
-      | 4 => match cpc_validate s with Ok b => (st, [zbool b]) | _ => (None, PANIC) end
-      | 5 => match build_bit_matrix s with Ok m => (st, map Nz m) | _ => (None, PANIC) end
+      | 4 => match cpc_validate s with Ok b => (st, [zbool b]) | _ => (set_cur st None, PANIC) end
+      | 5 => match build_bit_matrix s with Ok m => (st, map Nz m) | _ => (set_cur st None, PANIC) end
       | 8 => (st, [if c_merge s then (-1) else bits_of_float (c_hip s)])
       | _ => (st, PANIC)
       end
     end
   end.
 
-Fixpoint run_from (cfg : list Z) (st : option cpc) (ops : list zop) : list (list Z) :=
+Fixpoint run_from (cfg : list Z) (st : cstate) (ops : list zop) : list (list Z) :=
   match ops with
   | [] => []
   | o :: r => let '(st', ob) := step cfg st o in ob :: run_from cfg st' r
   end.
 
-Definition run (cfg : list Z) (ops : list zop) : list (list Z) := run_from cfg None ops.
+Definition run (cfg : list Z) (ops : list zop) : list (list Z) := run_from cfg (mkCS None [] []) ops.
 
 (* ------------------------------------------------------------------------------------------------
    Property oracle: the Spec of C05, evaluated on the crate's observations.
@@ -187,4 +259,115 @@ Fixpoint prop_from (lgk : N) (st : ospec) (ops : list zop) (obs : list (list Z))
 Definition prop_ok (c : case) : bool :=
   prop_from (zN (nth 0 (c_cfg c) 0)) o_empty (c_ops c) (c_obs c).
 
-Definition oracles : list (Z * (case -> bool)) := [(0, prop_ok)].
+(* ------------------------------------------------------------------------------------------------
+   Property oracle of C06: the union result is the OR of the inputs' matrices, rows folded modulo the
+   smallest lg_k among the union and its non-empty inputs.  Spec state: every sketch slot carries its
+   lg_k and exact matrix (from the pairs offered, or from the union it was taken from); every union slot
+   carries (lg_k, matrix).  Nothing below uses the model's sketch or union functions. *)
+Fixpoint ppop (p : positive) : N :=
+  match p with xH => 1%N | xO q => ppop q | xI q => (1 + ppop q)%N end.
+Definition npop (n : N) : N := match n with N0 => 0%N | Npos p => ppop p end.
+
+Definition pm_row (m : PositiveMap.t N) (r : N) : N :=
+  match PositiveMap.find (N.succ_pos r) m with Some w => w | None => 0%N end.
+(* OR every row r of [src] into row (r mod 2^lg) of [dst] *)
+Definition pm_fold_into (lg : N) (src dst : PositiveMap.t N) : PositiveMap.t N :=
+  PositiveMap.fold (fun p w acc =>
+     let r := ((N.pos p - 1) mod 2 ^ lg)%N in
+     PositiveMap.add (N.succ_pos r) (N.lor (pm_row acc r) w) acc) src dst.
+Definition pm_pop (m : PositiveMap.t N) : N := PositiveMap.fold (fun _ w acc => (acc + npop w)%N) m 0%N.
+Definition pm_cols (m : PositiveMap.t N) : list N :=
+  map (fun c => PositiveMap.fold (fun _ w acc => if N.testbit w c then (acc + 1)%N else acc) m 0%N)
+      (map N.of_nat (seq 0 64)).
+Definition ospec_of (m : PositiveMap.t N) : ospec := mkO m (pm_pop m) (pm_cols m).
+
+Record sspec := mkSS { ss_lgk : N; ss_o : ospec; ss_merged : bool }.
+Record uspec := mkUS { us_lgk : N; us_m : PositiveMap.t N }.
+
+(* the float-free dump [lg_k; C; off; fic; flavor; merge; |win|; win..; |tab|; tab..] of a sketch that
+   represents exactly the matrix of [st] *)
+Definition dumpnf_ok (lgk : N) (st : ospec) (merged : bool) (ob : list Z) : bool :=
+  let k := (2 ^ lgk)%N in
+  let c := zN (zat ob 1) in let off := zN (zat ob 2) in
+  let nwin := Z.to_nat (nth 6 ob 0) in
+  let win := firstn nwin (skipn 7 ob) in
+  let ntab := nth (7 + nwin) ob 0 in
+  let tab := map zN (skipn (8 + nwin) ob) in
+  let windowed := negb (32 * c <? 3 * k)%N in
+  summary_ok lgk st (firstn 4 (skipn 1 ob))
+  && (zN (zat ob 0) =? lgk)%N
+  && ((c =? 0)%N || (zat ob 5 =? zbool merged))              (* a non-empty union result is marked as merged *)
+  && (Z.of_nat nwin =? (if windowed then Nz k else 0))
+  && (Z.of_nat (length tab) =? ntab)
+  && win_ok st off 0 win
+  && (if windowed then
+        (zN ntab =? spec_surprises st k off)%N
+        && forallb (fun rc => let r := (rc / 64)%N in let cl := (rc mod 64)%N in
+                     (r <? k)%N &&
+                     (if (cl <? off)%N then negb (N.testbit (o_row st r) cl)
+                      else if (cl <? off + 8)%N then false else N.testbit (o_row st r) cl)) tab
+      else
+        (zN ntab =? c)%N
+        && forallb (fun rc => let r := (rc / 64)%N in ((r <? k)%N && N.testbit (o_row st r) (rc mod 64))) tab)
+  && (fix asc (l : list N) : bool :=
+        match l with x :: ((y :: _) as r) => (x <? y)%N && asc r | _ => true end) tab.
+
+(* one union update at the Spec level *)
+Definition uspec_update (u : uspec) (s : sspec) : uspec :=
+  if (o_c (ss_o s) =? 0)%N then u
+  else let lg := N.min (us_lgk u) (ss_lgk s) in
+       mkUS lg (pm_fold_into lg (o_m (ss_o s)) (pm_fold_into lg (us_m u) (PositiveMap.empty N))).
+
+Fixpoint union_from (sks : list (Z * sspec)) (uns : list (Z * uspec)) (ops : list zop) (obs : list (list Z)) : bool :=
+  match ops, obs with
+  | (code, a) :: r, ob :: obr =>
+      let a0 := nth 0 a 0 in let a1 := nth 1 a 0 in
+      let ok := negb (list_eqb Z.eqb ob PANIC) in
+      match code with
+      | 10 => ok && union_from (store a0 (mkSS (zN a1) o_empty false) sks) uns r obr
+      | 11 | 12 =>
+          match lookup a0 sks with
+          | Some ss =>
+              let '(row, col) := if code =? 11 then ((zN a1 / 64)%N, (zN a1 mod 64)%N)
+                                 else spec_pair (ss_lgk ss) (zN (nth 2 a 0)) (zN (nth 3 a 0)) in
+              let o' := o_add (ss_o ss) row col in
+              ok && summary_ok (ss_lgk ss) o' ob && union_from (store a0 (mkSS (ss_lgk ss) o' (ss_merged ss)) sks) uns r obr
+          | None => false
+          end
+      | 13 => match lookup a0 sks with
+              | Some ss => dumpnf_ok (ss_lgk ss) (ss_o ss) (ss_merged ss) ob && union_from sks uns r obr
+              | None => false end
+      | 14 => list_eqb Z.eqb ob [1] && union_from sks uns r obr
+      | 15 => match lookup a0 sks with
+              | Some ss => (Z.of_nat (length ob) =? Nz (2 ^ ss_lgk ss)) && rows_ok (ss_o ss) 0 ob && union_from sks uns r obr
+              | None => false end
+      | 20 => ok && union_from sks (store a0 (mkUS (zN a1) (PositiveMap.empty N)) uns) r obr
+      | 21 => match lookup a0 uns, lookup a1 sks with
+              | Some u, Some ss =>
+                  let u' := uspec_update u ss in
+                  (zN (zat ob 0) =? us_lgk u')%N && (0 <=? zat ob 1) && (zN (zat ob 1) =? pm_pop (us_m u'))%N
+                  && union_from sks (store a0 u' uns) r obr
+              | _, _ => false end
+      | 22 => match lookup a0 uns with
+              | Some u =>
+                  (zN (zat ob 0) =? us_lgk u)%N
+                  && (if zat ob 1 =? 1
+                      then (Z.of_nat (length ob) =? 2 + Nz (2 ^ us_lgk u)) && rows_ok (ospec_of (us_m u)) 0 (skipn 2 ob)
+                           && (3 * 2 ^ us_lgk u <=? 32 * pm_pop (us_m u))%N     (* a matrix is never in the sparse range *)
+                      else dumpnf_ok (us_lgk u) (ospec_of (us_m u)) (zat ob 7 =? 1) (skipn 2 ob)   (* the accumulator's own flag is not specified *)
+                           && (32 * pm_pop (us_m u) <? 3 * 2 ^ us_lgk u)%N)     (* an accumulator is empty or sparse *)
+                  && union_from sks uns r obr
+              | None => false end
+      | 23 => match lookup a0 uns with
+              | Some u =>
+                  let o := ospec_of (us_m u) in
+                  dumpnf_ok (us_lgk u) o true ob && union_from (store a1 (mkSS (us_lgk u) o true) sks) uns r obr
+              | None => false end
+      | _ => ok && union_from sks uns r obr
+      end
+  | _, _ => true
+  end.
+
+Definition union_ok (c : case) : bool := union_from [] [] (c_ops c) (c_obs c).
+
+Definition oracles : list (Z * (case -> bool)) := [(0, prop_ok); (1, union_ok)].
